@@ -124,10 +124,10 @@ def case_line(c):
     return s
 
 
-def vec_cfg(D, A, B, S, dens, kinds, mat='Mat11', stride=1, seed=0, a1=None):
+def vec_cfg(D, A, B, S, dens, kinds, mat='Mat11', stride=1, seed=0, a1=None, divs='Div255', jitters=0):
     return ('SPECIFICATION Spec\nCONSTANTS\n  D = %d\n  CompsA <- %s\n  CompsB <- %s\n  Scalars <- %s\n  Dens = %s\n  GenKinds = %s\n'
-            '  MatEntries <- %s\n  Stride = %d\n  Seed = %d\n  FirstA <- %s\nINVARIANT LawsHold\nINVARIANT EmitCase\nCHECK_DEADLOCK FALSE\n'
-            % (D, A, B, S, vlib.tla_set(dens), vlib.tla_set(kinds), mat, stride, seed, a1 or A))
+            '  MatEntries <- %s\n  Stride = %d\n  Seed = %d\n  FirstA <- %s\n  SweepDivisors <- %s\n  Jitters = %d\nINVARIANT LawsHold\nINVARIANT EmitCase\nCHECK_DEADLOCK FALSE\n'
+            % (D, A, B, S, vlib.tla_set(dens), vlib.tla_set(kinds), mat, stride, seed, a1 or A, divs, jitters))
 
 
 def c19_configs(tier, seed):
@@ -143,7 +143,8 @@ def c19_configs(tier, seed):
         add('d3', D=3, A='Lat22', B='LatB3', S='Lat22', dens=[1], kinds=['B'])
         add('d3p', D=3, A='Lat04', B='Lat13', S='Lat04', dens=[1], kinds=['B', 'S', 'U'])
         add('d4', D=4, A='LatB4', B='LatB2', S='Lat22', dens=[1], kinds=['B'])
-        add('geo', D=3, A='Lat22', B='Lat22', S='Lat22', dens=[1], kinds=['G'], mat='Mat11', stride=200, seed=seed)
+        add('geo', D=3, A='Lat22', B='Lat22', S='Lat22', dens=[1], kinds=['G'], mat='Mat11', stride=200, seed=seed, jitters=12)
+        add('sweep', D=4, A='Lat22', B='Lat22', S='Lat22', dens=[1], kinds=['W'], divs='DivOdd')
     else:
         for x in ('m2', 'm1', 'z0', 'p1', 'p2'):
             add('d3' + x, D=3, A='Lat22', B='Lat22', S='Lat22', dens=[1, 2], kinds=['B'], a1='One_' + x)
@@ -151,7 +152,8 @@ def c19_configs(tier, seed):
         for x in ('m2', 'm1', 'z0', 'p1', 'p2'):
             add('d4' + x, D=4, A='Lat22', B='LatB4', S='Lat22', dens=[1], kinds=['B'], a1='One_' + x)
         add('d4h', D=4, A='Lat22', B='LatB2', S='Lat22', dens=[2], kinds=['B'])
-        add('geo', D=3, A='Lat22', B='Lat22', S='Lat22', dens=[1], kinds=['G'], mat='Mat11', stride=12, seed=seed)
+        add('geo', D=3, A='Lat22', B='Lat22', S='Lat22', dens=[1], kinds=['G'], mat='Mat11', stride=12, seed=seed, jitters=150)
+        add('sweep', D=4, A='Lat22', B='Lat22', S='Lat22', dens=[1], kinds=['W'], divs='Div255')
         add('geo2', D=3, A='Lat22', B='Lat22', S='Lat22', dens=[1], kinds=['G'], mat='Mat12', stride=400, seed=seed)
     return cf
 
